@@ -127,18 +127,11 @@ pub trait DecisionNNFBuilder<'a>: TopDownBuilder<'a, BddPtr<'a>> {
             None => return BddPtr::false_ptr(),
         };
 
-        let mut r = self.topdown_h(cnf, &mut sat, 0, &mut FxHashMap::default());
+        let r = self.topdown_h(cnf, &mut sat, 0, &mut FxHashMap::default());
 
-        // conjoin in any initially implied literals
-        for l in sat.difference_iter() {
-            let node = if l.polarity() {
-                BddNode::new(l.label(), BddPtr::false_ptr(), r)
-            } else {
-                BddNode::new(l.label(), r, BddPtr::false_ptr())
-            };
-            r = self.get_or_insert(node);
-        }
-        r
+        // conjoin in any initially implied literals; an unsatisfiable remainder
+        // stays the false constant
+        self.conjoin_implied(sat.difference_iter(), r)
     }
 
     fn cond_helper(&'a self, bdd: BddPtr<'a>, lbl: VarLabel, value: bool) -> BddPtr<'a> {
